@@ -611,6 +611,7 @@ Definition write_pattern (fuel : nat) (pattern : pattern) (intls : intl_cache) :
 (* bundle.rs FluentBundle::format_pattern *)
 Definition format_pattern (fuel : nat) (pattern : pattern) (intls : intl_cache) : outcome (bytes * scope) :=
   let* (value, sc) := pattern_resolve (S fuel) pattern (scope_new intls) in
-  Done (value_into_string value, sc).
+  (* match pattern.resolve(..) { FluentValue::String(text) => text, value => value.into_string(&scope) } *)
+  Done (match value with VString text => text | _ => value_into_string value end, sc).
 
 End Resolver.
